@@ -71,7 +71,7 @@ Ltac bools :=
 
 Lemma lstep_inv st ev st' : CInv st -> lstep st ev = Some st' -> CInv st'.
 Proof.
-  intros (Hb & Hrc & Hd & Hinc) Hstep. destruct ev as [t|t old|t old|t|t u|t]; cbn [lstep] in Hstep.
+  intros (Hb & Hrc & Hd & Hinc) Hstep. destruct ev as [t|t old|t old|t|t u|t|t]; cbn [lstep] in Hstep.
   - (* EvCopyStart *)
     destruct (nth_error (threads st) t) as [th|] eqn:Hth; [|discriminate].
     destruct (pc_eqb (tpc th) Idle && (1 <=? held th)) eqn:Hc; [|discriminate]. injection Hstep as <-. bools.
@@ -143,6 +143,16 @@ Proof.
       * apply nth_error_upd_inv in H2. destruct H2 as [[-> ->]|[_ H2]]; eauto.
         simpl in Hp. congruence.
   - (* EvUse *)
+    destruct (nth_error (threads st) t) as [th|] eqn:Hth; [|discriminate].
+    destruct (1 <=? held th) eqn:Hc; [|discriminate]. injection Hstep as <-. bools.
+    pose proof (held_le_sum _ _ _ Hth) as Hle.
+    pose proof (sum_held_upd _ t th th Hth) as Hs. pose proof (ndel_upd _ t th th Hth) as Hn.
+    destruct (Nat.eqb_spec (refcount st) 0) as [|Hnz]; [lia|].
+    repeat split; simpl; try lia.
+    + rewrite Hb. assert (destroyed st = 0) as -> by lia. reflexivity.
+    + destruct (Nat.eqb_spec (refcount st) 0); lia.
+    + intros t2 th2 H2 Hp. apply nth_error_upd_inv in H2. destruct H2 as [[-> ->]|[_ H2]]; eauto.
+  - (* EvCloneRead *)
     destruct (nth_error (threads st) t) as [th|] eqn:Hth; [|discriminate].
     destruct (1 <=? held th) eqn:Hc; [|discriminate]. injection Hstep as <-. bools.
     pose proof (held_le_sum _ _ _ Hth) as Hle.
